@@ -652,8 +652,10 @@ func cloneConsumerGroup(group *metadatapb.ConsumerGroup) *metadatapb.ConsumerGro
 				})
 			}
 		}
+		cloned.SessionTimeoutMs = member.SessionTimeoutMs
 		out.Members[memberID] = cloned
 	}
+	out.RebalanceTimeoutMs = group.RebalanceTimeoutMs
 	return out
 }
 
